@@ -963,6 +963,26 @@ def check_dataset_histories(run, tree):
             copied = m1.get("time") == "T1"
         return own and copied, "second dataset has its own meta: %s; deep copy has its own meta holding the same entries: %s" % (own, copied)
 
+    @case("the dataset is a container of references: clear() / pop() / del empty the container only - the groups it held keep their members; "
+          "a group already owned by another dataset is stored AS IS (the same object, re-parented), like test_copy pins for copy()",
+          "ds.clear() empties every Datagroup it held (a shallow copy made before now maps to empty groups); ds2['a'] = ds1['a'] stores a copy, "
+          "so later edits of the group are not seen through ds2")
+    def c11():
+        ds = new_ds()
+        g = make_group(tree, hooks)
+        members_before = group_state(tree, hooks, g)
+        call_method(tree, hooks, ds, "__setitem__", "a", g)
+        shallow = call_method(tree, hooks, ds, "copy")
+        call_method(tree, hooks, ds, "clear")
+        kept = group_state(tree, hooks, g) == members_before and shallow._attrs["groups"].get("a") is g
+        ds1, ds2 = new_ds(), new_ds()
+        h = new_group(tree, hooks)
+        call_method(tree, hooks, ds1, "__setitem__", "a", h)
+        call_method(tree, hooks, ds2, "__setitem__", "b", h)
+        same = ds2._attrs["groups"].get("b") is h and ds1._attrs["groups"].get("a") is h
+        return kept and same, "members of a held group after clear(): %s (before: %s); the group stored in a second dataset is the same object: %s" % (
+            sorted(g._attrs.get("_container", {})), sorted(members_before), same)
+
     for label, family, fn in cases:
         construct = "%s::history[%s]" % (DS_Q, label)
         try:
